@@ -55,7 +55,8 @@ var nativeAct = &core.FuncAction{F: func(ctx context.Context, bs match.Bindings,
 }}
 
 func c20Build(cs c20Case) (*core.Spec, error) {
-	spec := &core.Spec{Name: "g", Nodes: map[string]*core.Node{}}
+	// every generated spec carries the same Id and Name: nothing may be remembered under them
+	spec := &core.Spec{Id: "the-only-id", Name: "g", Nodes: map[string]*core.Node{}}
 	for name, gn := range cs.Nodes {
 		n := &core.Node{}
 		switch gn.Action {
